@@ -16,7 +16,7 @@ RULE = ("random styles over 13 tri-state attributes x {unset, default, named, co
         "operands overlap in >=1 field); distinct by canonical record.")
 ASSUMPTIONS = ["docs/source/appendix/colors.rst and docs/source/style.rst are the documentation oracle",
                "equality of colours is judged by (type, number, triplet), not by the Color.name string"]
-REQUIRED = ["mon.identity", "mon.assoc", "mon.right_bias", "mon.roundtrip_str", "mon.normalize",
+REQUIRED = ["mon.second_level", "mon.identity", "mon.assoc", "mon.right_bias", "mon.roundtrip_str", "mon.normalize",
             "mon.eq_hash_pairs", "mon.dict_lookup", "mon.doc_color", "mon.doc_attr", "mon.route"]
 MIN_NONTRIVIAL = {"quick": 3000, "thorough": 100000}
 
@@ -92,6 +92,11 @@ def routes(rec, rng):
         out.append(("combine", Style.combine(parts)))
         out.append(("null_plus_sum", Style() + acc))
     out.append(("copy", _used(base, rng).copy()))
+    import copy as _copy
+    import pickle as _pickle
+    out.append(("copy.copy", _copy.copy(_used(base, rng))))
+    out.append(("copy.deepcopy", _copy.deepcopy(_used(G.build(rec), rng))))
+    out.append(("pickle", _pickle.loads(_pickle.dumps(_used(G.build(rec), rng)))))
     # link-updated
     nolink = dict(rec, link=None)
     if rec["link"] is not None or not G.is_null(nolink):
@@ -115,6 +120,14 @@ def routes(rec, rng):
     if rec["link"] is not None:
         kw["link"] = rec["link"]
     out.append(("kwargs_color_objects", Style(**kw)))
+    if (rec["fg"] and rec["fg"][0] == "rgb") or (rec["bg"] and rec["bg"][0] == "rgb"):
+        # rgb(...) written with blanks after the commas / inside the parentheses (accepted by Color.parse, and so by
+        # the keyword route)
+        kw2 = dict(kw)
+        for key, spec in (("color", rec["fg"]), ("bgcolor", rec["bg"])):
+            if spec and spec[0] == "rgb":
+                kw2[key] = rng.choice(["rgb(%d, %d, %d)", "rgb( %d,%d,%d )", "RGB(%d ,%d ,%d)"]) % tuple(spec[1:])
+        out.append(("kwargs_rgb_with_blanks", Style(**kw2)))
     if rec["link"] is None:
         # "no link" spelled as an empty string by the caller (a template value, an unset config entry)
         out.append(("kwargs_empty_link", Style(link="", **kw)))
@@ -145,6 +158,22 @@ def wl_routes(ctx, rng, case_no):
             continue
         if not (back == s):
             ctx.violation("str-roundtrip-not-equal:" + name, dict(what, route=name, text=text, back=str(back)))
+    # second level: whatever route made a style, it behaves as that style in every further operation (a flag that a
+    # route computes wrongly - "is this the null style?" - only shows when the object is USED)
+    other = G.rand_record(rng, p_attr=0.15)
+    other_style = G.build(other)
+    for name, s in rs:
+        ctx.count("mon.second_level")
+        what2 = dict(what, route=name, other=other)
+        ok = (_chk_view(ctx, "derived-style-misbehaves:copy-of:" + name, s.copy(), rec, what2)
+              and _chk_view(ctx, "derived-style-misbehaves:null-plus:" + name, Style() + s, rec, what2)
+              and _chk_view(ctx, "derived-style-misbehaves:plus-null:" + name, s + Style(), rec, what2)
+              and _chk_view(ctx, "derived-style-misbehaves:other-plus:" + name, other_style + s, G.add_records(other, rec), what2)
+              and _chk_view(ctx, "derived-style-misbehaves:plus-other:" + name, s + other_style, G.add_records(rec, other), what2))
+        if ok and rec["fg"] is None and rec["bg"] is None:
+            ok = _chk_view(ctx, "derived-style-misbehaves:without_color-of:" + name, s.without_color, rec, what2)
+        if not ok:
+            break
     base = rs[0][1]
     text = str(base)
     back = Style.parse(text)
